@@ -37,6 +37,17 @@ Theorem C14_registry_function : forall (ds : list (list (list N) * N)) (s : list
 Proof. exact registry_matches_spec. Qed.
 Print Assumptions C14_registry_function.
 
+(* Histories: for EVERY interleaving of decorator applications and opens on a registry that
+   already holds the registrations [pre] (fresh registry: pre = []; the global one: the
+   decorators of the source), the i-th open answers with the class of the last registration
+   made BEFORE it that mentions its suffix - in particular a registration made after a suffix
+   has already been opened replaces the class for the next open - or refuses, constructing
+   nothing, when none does.  ([history] in Spec/Lifecycle.v; [answer] as in C14_registry_function.) *)
+Theorem C14_registry_history : forall (ops : list hop) (pre : list (list (list N) * N)),
+  run_ops (register_all pre) ops = map answer (history pre ops).
+Proof. exact run_ops_history. Qed.
+Print Assumptions C14_registry_history.
+
 (* In every registry state: a refusal is NotImplementedError, happens exactly for an absent key,
    and no constructor (hence no open) has run. *)
 Theorem C14_unknown_suffix_opens_nothing : forall (r : registry) (s : list N) e tr,
@@ -99,6 +110,12 @@ Example C14_registry_example :
   /\ open_workbook (register_all ds) [46; 98]%N = (Ok 3%N, [Construct 3%N])
   /\ open_workbook (register_all ds) [46; 99]%N = (Err NotImplementedError, []).
 Proof. vm_compute. repeat split. Qed.
+
+(* refused, registered, opened, re-registered AFTER the open, opened again *)
+Example C14_history_example :
+  run_ops [] [HOpen [46; 120]; HRegister [[46; 120]] 1; HOpen [46; 120]; HRegister [[46; 120]] 2; HOpen [46; 120]]%N
+  = [(Err NotImplementedError, []); (Ok 1%N, [Construct 1%N]); (Ok 2%N, [Construct 2%N])].
+Proof. vm_compute. reflexivity. Qed.
 
 (* CSV by path, two reads, then the body raises: one descriptor inside, none afterwards *)
 Example C14_release_example :
